@@ -563,6 +563,10 @@ class OptionsParser:
             option, value = option.split('=', 1)
             option = option.lower()
 
+            if self.options.get(option) is True:
+                raise ValueError(f'Option {option} specified both with '
+                                 'and without a value')
+
             handler = self._handlers.get(option)
             if handler:
                 handler(self, option, value)
@@ -570,7 +574,12 @@ class OptionsParser:
                 values = cast(List[str], self.options.setdefault(option, []))
                 values.append(value)
         else:
-            self.options[option.lower()] = True
+            option = option.lower()
+
+            if option in self._handlers:
+                raise ValueError(f'Missing value for option {option}')
+
+            self.options[option] = True
 
     def _parse_options(self, line: str) -> str:
         """Parse options in this entry"""
